@@ -445,8 +445,11 @@ void World::broker_send(const ConnPtr& c, const std::string& bytes, int, int) {
     bool reset_after = false, eof_after = false; int fec = 0; size_t fat = 0;
     if (Fault* f = fault_for(c, Fault::reset_b2c); f && f->at >= before && f->at < before + len) { f->fired = true; part = bytes.substr(0, f->at - before); reset_after = true; fec = f->ec; fat = f->at; }
     else if (Fault* f2 = fault_for(c, Fault::eof_b2c); f2 && f2->at >= before && f2->at < before + len) { f2->fired = true; part = bytes.substr(0, f2->at - before); eof_after = true; fat = f2->at; }
-    else if (Fault* f3 = fault_for(c, Fault::stall_b2c); f3 && f3->at >= before && f3->at < before + len) {
-        f3->fired = true; part = bytes.substr(0, f3->at - before); c->broker_closed = true;   // not a transport fault: the connection is up and silent
+    else if (Fault* f3 = fault_for(c, Fault::stall_b2c); f3 && crec(c).connack_sent && crec(c).connack_bpkt >= 0 &&
+             h.bpkts[crec(c).connack_bpkt].end_offset + f3->at >= before && h.bpkts[crec(c).connack_bpkt].end_offset + f3->at < before + len && before >= h.bpkts[crec(c).connack_bpkt].end_offset) {
+        // (the offset of this fault counts from the end of the CONNACK: the silence begins on an established connection)
+        size_t cut = h.bpkts[crec(c).connack_bpkt].end_offset + f3->at;
+        f3->fired = true; part = bytes.substr(0, cut - before); c->broker_closed = true;   // not a transport fault: the connection is up and silent
         log(Ev::fault, c->id, -1, (int64_t)f3->at, "broker->client path stalls after " + std::to_string(f3->at) + " bytes (mid-packet silence, the connection stays up)");
     }
     if (reset_after || eof_after) c->broker_closed = true;   // nothing after the cut reaches the client
